@@ -559,6 +559,29 @@ func TestVerif_C04_TwoWriters(t *testing.T) {
 		c04Replay(t, p)
 		return
 	}
+	// scripted first: two devices write about one subject with different values; one of them goes on without having
+	// seen the other's entry, so that a later delivery inserts an entry between entries that were indexed before
+	scripted := [][]c04Op{
+		{{W: 0, Kind: "enqueue", C: 0, Meta: 1}, {Kind: "xsync"}, {W: 1, Kind: "enqueue", C: 0, Meta: 2}, {W: 0, Kind: "enable"}, {W: 0, Kind: "enqueue", C: 0, Meta: 0}},
+		{{W: 0, Kind: "incoming", C: 1, Meta: 1}, {Kind: "xsync"}, {W: 1, Kind: "incoming", C: 1, Meta: 2}, {W: 0, Kind: "disable"}, {W: 0, Kind: "incoming", C: 1, Meta: 0, Seed: 1}},
+		{{W: 0, Kind: "join", C: 0}, {Kind: "xsync"}, {W: 1, Kind: "leave", C: 0}, {W: 0, Kind: "refreset"}, {W: 0, Kind: "enqueue", C: 0, Meta: 2}, {W: 1, Kind: "enqueue", C: 0, Meta: 1}},
+	}
+	if shard, _ := vacct.Shard(); shard == 0 {
+		for _, ops := range scripted {
+			for _, plan := range []uint64{0, 1, 2, 3, 6, 255} {
+				res := c04Run(t, ops, plan, 0, 1)
+				if res.harness != "" {
+					t.Fatalf("harness: %s", res.harness)
+				}
+				c04Account(acct, "two-writers", ops, plan, res)
+				acct.Label("two-writers/scripted")
+				if res.violation != "" {
+					c04Report(acct, "TestVerif_C04_TwoWriters", ops, plan, 0, 1, res)
+					t.Fatalf("C04 %s: %s\n%s", res.violation, res.msg, strings.Join(res.trace, "\n"))
+				}
+			}
+		}
+	}
 	vacct.RapidCheck(t, vacct.N(25, 5000), func(rt *rapid.T) {
 		n := rapid.IntRange(2, 7).Draw(rt, "n")
 		var ops []c04Op
